@@ -80,7 +80,7 @@ class Check:
             world['faults'] = faults
             return {'family': 'deadreckon', 'world': world, 'gains': {'madgwick': 10 ** rnd.uniform(-2, 0), 'kP': 10 ** rnd.uniform(-1, 0.7),
                     'kI': 10 ** rnd.uniform(-2, 0), 'alpha': 10 ** rnd.uniform(-2, -0.3)}, 'b0': [rnd.gauss(0, 0.05) for _ in range(3)],
-                    'dt_call': rnd.random() < 0.5}
+                    'dt_call': rnd.random() < 0.5, 'dt_route': rnd.choice(['Dt', 'Dt', 'call'])}
         n = rnd.choice([10, 60, 200] + ([600] if big else []))
         world = W.gen_world(rnd, n, allow_kicks=False, noise=False, max_rate=10.0)
         return {'family': 'recorder', 'world': world}
@@ -196,14 +196,15 @@ class Check:
         for name, p in nodes:
             kind = C.KINDS[name]
             key = W.chan_key(*kind.refs(p, dip))
-            inst = kind.make(p, dt, dip)
+            p = dict(p, dt_route=scn.get('dt_route', 'Dt'), dt_call=scn.get('dt_call', False))
+            inst = kind.make(p, dt, dip)        # route 'call': class-default period, dt is given on every call
             tq = hist.truth[0]
             q = qm.qconj(tq) if kind.conj else tq.copy()
             for k in range(1, hist.n):
                 gk, ak, mk = hist.gyr[k], hist.acc[key][k], hist.mag[key][k]
                 prev = q
                 try:
-                    q = np.asarray(kind.step(inst, p, prev, gk, ak, mk if 'm' in kind.sensors else None, scn.get('dt_call', False)), dtype=float)
+                    q = np.asarray(kind.step(inst, p, prev, gk, ak, mk if 'm' in kind.sensors else None, C.call_dt(p, dt)), dtype=float)
                 except Exception as e:      # noqa: BLE001
                     viol.append(self._v(name, f'crash:{type(e).__name__}', k, f'tick {k}: {type(e).__name__}: {e}'))
                     break
